@@ -1154,6 +1154,12 @@ func (r *Resolver) answer(ctx context.Context, req, resp *dns.Msg, parentDS []dn
 		}
 		resp.Answer = append(resp.Answer, targetMsg.Answer...)
 		resp.Rcode = targetMsg.Rcode
+		if targetMsg.Rcode == dns.RcodeServerFailure {
+			// The failure is the target's; so is the explanation.
+			if ede := dnsutil.GetEDE(targetMsg); ede != nil && dnsutil.GetEDE(resp) == nil {
+				dnsutil.SetEDE(resp, ede.InfoCode, ede.ExtraText)
+			}
+		}
 		terminalDenial := targetMsg.Rcode == dns.RcodeNameError
 		if !req.CheckingDisabled {
 			resp.AuthenticatedData = resp.AuthenticatedData && targetMsg.AuthenticatedData
